@@ -25,9 +25,15 @@ connection set-up of `gmw.Network` and goroutine scheduling are exercised by
 the harness, not modelled; privacy is not claimed; `Outputs.Split` (the
 presentation of the output bits as values, the same function in `Network.Run`
 and `Circuit.Compute`) is C02/C13's.
+
+Inputs: `x : Nat → Nat` in the theorems up to `C10_history`; the last section
+(`Model/GmwInt.lean`) puts the integers the API accepts in front - every
+`*big.Int` of any sign and magnitude, read by `Int.Xor` / `Int.Bit`
+(`C10_outputs_int`, `C10_outputs_args`, `C10_history_int`).
 -/
 import MpcVerif.Proofs.GmwRun
 import MpcVerif.Proofs.GmwHist
+import MpcVerif.Proofs.GmwInt
 import MpcVerif.Proofs.LevelsMod
 import MpcVerif.Model.Iknp
 
@@ -511,6 +517,125 @@ theorem C10_history_concrete :
     exHist.map (fun k => k.c.compute (inputBits k.sizes k.x)) =
       [[true, true], [false, false], [true], [true, false]] ∧
     exGmw.compute (inputBits [1, 1, 1] exX2) ≠ exGmw2.compute (inputBits [1, 1, 1] exX2) := by
+  decide +kernel
+
+/-! ### Inputs as the integers the API accepts (`Model/GmwInt.lean`)
+
+"All inputs" of the statement ranges over the `*big.Int` values a party can
+hand to `Network.Run`: what `IOArg.Parse` makes of the user's text - a NEGATIVE
+value for "-5" (signed and unsigned scalar arguments alike), a value wider
+than the declared width for a long literal, zero - not over bit lists.  The
+own share is `Xor(shares sent, input)` read with `Bit(i)`; both are
+two's-complement operations of `math/big` defined on every integer. -/
+
+/-- **The bits a party shares are the two's complement of its input at the
+declared width, for EVERY integer**: `Xor` then `Bit` is the XOR of the
+`Bit`s; what `setWires(self, shared.Xor(shared, input))` stores is what the
+natural-number model stores for the residue `input mod 2^Bits`; the `Bits`
+wire bits of `input` are the binary digits of that residue. -/
+theorem C10_input_share_twos_complement (w : Store Bool) (ofs bits s : Nat) (v : Int) :
+    (∀ a b : Int, ∀ i, bigIntBit (bigIntXor a b) i = (bigIntBit a i != bigIntBit b i)) ∧
+    setWiresInt w ofs bits (bigIntXor (Int.ofNat s) v) = setWires w ofs bits (s ^^^ residue bits v) ∧
+    bitsOfInt bits v = natBits bits (residue bits v) ∧
+    packLE (bitsOfInt bits v) = residue bits v ∧ (residue bits v : Int) = v % 2 ^ bits :=
+  ⟨bigIntBit_xor, setWiresInt_xor w ofs bits s v, (natBits_residue bits v).symm, packLE_bitsOfInt bits v,
+    Int.toNat_of_nonneg (Int.emod_nonneg v (Int.ne_of_gt (Int.pow_pos (by decide))))⟩
+
+example : residue 8 (-5) = 251 ∧ bitsOfInt 8 (-5) = [true, true, false, true, true, true, true, true] ∧
+    bigIntXor 6 (-5) = -3 ∧ bigIntXor (-6) (-5) = 1 ∧ residue 4 (2 ^ 64 + 3) = 3 := by decide
+
+/-- The integer-input model is the natural-number model on the residues:
+single run, run from any state, whole histories. -/
+theorem C10_int_run_is_residue_run (c : Circuit) (sizes : List Nat) (x : Nat → Int) (rnd : Nat → Nat → Nat)
+    (pools : Nat → Triples) (ps : List Party) (ks : List CallInt) :
+    runInt c sizes x rnd pools = run c sizes (natInputs sizes x) rnd pools ∧
+    runFromInt c sizes x rnd ps = runFrom c sizes (natInputs sizes x) rnd ps ∧
+    runHistInt ks ps = runHist (ks.map CallInt.toCall) ps ∧
+    inputBits sizes (natInputs sizes x) = inputBitsInt sizes x :=
+  ⟨runInt_eq c sizes x rnd pools, runFromInt_eq c sizes x rnd ps, runHistInt_eq ks ps, inputBits_natInputs sizes x⟩
+
+/-- **C10_outputs_int.**  `C10_outputs` for the inputs the API accepts: for
+every number of parties, every circuit as there, EVERY integer input of every
+party (any sign, any magnitude), all sharing randomness and valid pools: the
+run returns and every party's output is `Circuit.compute` on the bits
+`(x p).Bit(i)`, `i < Bits_p` - what `Circuit.Compute` evaluates for the same
+`*big.Int` values. -/
+theorem C10_outputs_int (c : Circuit) (sizes : List Nat) (x : Nat → Int) (rnd : Nat → Nat → Nat)
+    (pools : Nat → Triples) (L : Nat) (hok : RunOK c sizes) (hpools : PoolsValid sizes.length L pools)
+    (hL : needW (blocks c) ≤ L) :
+    ∃ ps outs, runInt c sizes x rnd pools = .ok ps outs ∧ outs.length = sizes.length ∧
+      ∀ o ∈ outs, o = c.compute (inputBitsInt sizes x) := by
+  rw [runInt_eq, ← inputBits_natInputs]
+  exact C10_outputs c sizes (natInputs sizes x) rnd pools L hok hpools hL
+
+/-- The same with every party's argument given member by member (scalar: the
+parsed integer itself; struct: `IOArg.Parse` packs the members with
+`SetBit(offset+i, member.Bit(i))`): every party's output is `compute` on the
+flattened members of all parties, each read with `Bit` - the wire assignment
+of `Circuit.Compute(inputs)`. -/
+theorem C10_outputs_args (c : Circuit) (n : Nat) (args : Nat → ArgVals) (rnd : Nat → Nat → Nat)
+    (pools : Nat → Triples) (L : Nat) (hok : RunOK c (argSizes n args)) (hpools : PoolsValid n L pools)
+    (hL : needW (blocks c) ≤ L) :
+    ∃ ps outs, runArgs c n args rnd pools = .ok ps outs ∧ outs.length = n ∧
+      ∀ o ∈ outs, o = c.compute (encodeArg ((List.range n).flatMap args)) := by
+  have h := C10_outputs_int c (argSizes n args) (fun p => partyValue (args p)) rnd pools L hok
+    (by rw [argSizes_length]; exact hpools) hL
+  rw [argSizes_length, inputBitsInt_args] at h
+  exact h
+
+/-- **C10_history_int.**  `C10_history` for integer inputs: every call of
+every history returns `compute` of ITS circuit on the `Bit`s of ITS integer
+inputs. -/
+theorem C10_history_int (n : Nat) (ks : List CallInt) (pools : Nat → Triples) (L : Nat)
+    (hks : ∀ k ∈ ks, CallOK n k.toCall) (hpools : PoolsValid n L pools)
+    (hL : needHist (ks.map CallInt.toCall) ≤ L) :
+    HistOK n (ks.map CallInt.toCall) L ((List.range n).map fun p => (pools p).view) (runHistInt ks (fresh n pools)) ∧
+    ∀ k ∈ ks, inputBits k.toCall.sizes k.toCall.x = inputBitsInt k.sizes k.x := by
+  refine ⟨?_, fun k _ => inputBits_natInputs k.sizes k.x⟩
+  rw [runHistInt_eq]
+  exact C10_history n _ pools L (by simpa using hks) hpools hL
+
+/-! #### Non-vacuity and the magnitude-words witness -/
+
+/-- `w4 = a0 ^ b; w5 = a1 ^ b; w6 = a2 ^ b`: party 0 has a 3-bit argument,
+party 1 one bit; every input bit reaches an output. -/
+def exIntC : Circuit :=
+  { numWires := 7, nIn := 4, nOut := 3, gates := [⟨.xor, 0, 3, 4⟩, ⟨.xor, 1, 3, 5⟩, ⟨.xor, 2, 3, 6⟩] }
+
+/-- party 0: `-3` (what `Parse("-3")` returns for `int3` and `uint3` alike),
+party 1: `2^64` (wider than its one-bit argument: bit 0 is 0) -/
+def exIntX (p : Nat) : Int := if p = 0 then -3 else 2 ^ 64
+
+def noPools (_ : Nat) : Triples := Triples.empty
+
+example : RunOK exIntC [3, 1] :=
+  ⟨⟨by decide, by decide, by decide⟩, by decide, by decide, by decide, by decide⟩
+example : PoolsValid 2 0 noPools :=
+  ⟨fun p _ => ⟨by simp [noPools, Triples.WF, Triples.empty], rfl⟩, fun k hk => absurd hk (Nat.not_lt_zero k)⟩
+example : needW (blocks exIntC) = 0 := by decide +kernel
+example : argSizes 2 (fun p => if p = 0 then [(3, -3)] else [(1, 2 ^ 64)]) = [3, 1] := by decide
+
+example : ∀ k ∈ [(⟨exIntC, [3, 1], exIntX, exRnd⟩ : CallInt), ⟨exIntC, [3, 1], fun _ => -1, exRnd⟩], CallOK 2 k.toCall := by
+  intro k hk
+  simp only [List.mem_cons, List.mem_nil_iff, or_false] at hk
+  rcases hk with rfl | rfl <;>
+    exact ⟨⟨⟨by decide, by decide, by decide⟩, by decide, by decide, by decide, by decide⟩, rfl, by decide⟩
+
+/-- On non-negative inputs a reader of the magnitude words (`big.Int.Bits()`)
+computes the same run: inputs built with `SetBit` cannot tell the two apart. -/
+theorem C10_abs_words_agree_nonneg (c : Circuit) (sizes : List Nat) (x : Nat → Nat) (rnd : Nat → Nat → Nat)
+    (pools : Nat → Triples) :
+    runAbs c sizes (fun p => Int.ofNat (x p)) rnd pools = runInt c sizes (fun p => Int.ofNat (x p)) rnd pools := by
+  rfl
+
+/-- **Negation witness for the magnitude-words reading.**  On the executed
+model of the code every party returns `compute` of the two's-complement bits
+of `-3` (`101`); the variant that reads the machine words of the XORed own
+share (`Xor(3, -3) = -2`, magnitude `2`) makes every party return another value. -/
+theorem C10_abs_words_run_wrong :
+    exIntC.compute (inputBitsInt [3, 1] exIntX) = [true, false, true] ∧
+    runOuts (runInt exIntC [3, 1] exIntX exRnd noPools) = some [[true, false, true], [true, false, true]] ∧
+    runOuts (runAbs exIntC [3, 1] exIntX exRnd noPools) = some [[true, false, false], [true, false, false]] := by
   decide +kernel
 
 end Mpc
